@@ -387,6 +387,41 @@ func runC11(c *Ctx) {
 				}
 			}
 			c.MinInstances("C11.R11 one-hash-per-index", n11, 1)
+			// R12: every entry of the table this function returns is persisted by Update as the
+			// node at that index: an entry is a caller-supplied hash at its own index or the
+			// branch hash of two children — a hash merely carried up to a parent index (a node
+			// without a sibling) must stay in a table of its own, or Update files a node at a
+			// location the tree does not have
+			n12 := 0
+			var retMap ssa.Value
+			for _, r := range Returns(cpn) {
+				if len(r.Results) > 0 {
+					if _, isMk := valueRoot(r.Results[0]).(*ssa.MakeMap); isMk {
+						retMap = valueRoot(r.Results[0])
+					}
+				}
+			}
+			for _, b := range blocksDeep(cpn) {
+				for _, in := range b.Instrs {
+					mu, ok := in.(*ssa.MapUpdate)
+					if !ok || retMap == nil || valueRoot(mu.Map) != retMap {
+						continue
+					}
+					n12++
+					vt := cf.Term(mu.Value)
+					ok2 := strings.HasPrefix(vt.String(), "p0[") || (vt.Op == "call" && strings.HasSuffix(vt.Sym, "rmt.branchHash")) ||
+						(vt.Op == "phi" && func() bool {
+							for _, a := range vt.Args {
+								if !(a.Op == "call" && strings.HasSuffix(a.Sym, "rmt.branchHash")) {
+									return false
+								}
+							}
+							return len(vt.Args) > 0
+						}())
+					c.Require("C11.R12 returned-table-holds-tree-nodes", FuncKey(cpn)+": result["+cf.Term(mu.Key).String()+"] = "+cut(vt.String(), 80), p.InstrPos(mu), "an entry of the returned (and persisted) table is a caller-supplied leaf hash or a branch hash of two children", ok2, "")
+				}
+			}
+			c.MinInstances("C11.R12 returned-table-holds-tree-nodes", n12, 2)
 		}
 		if trim := c.Anchor("pkg/trie/rmt.intToBytesWithoutLeadingZero"); trim != nil {
 			checkLeadingTrimFirstMatch(c, "C11.R9 leading-trim-stops-at-first-match", trim)
